@@ -661,7 +661,9 @@ pub async fn run(cfg: Cfg) -> Run {
                 let (tx, rx) = ractor::concurrency::oneshot();
                 // the (unreachable) TTL carries the job id into the stats callbacks; with `ttl` the
                 // first key gets a really short one
-                let short = cfg.ttl && key == 0;
+                // (with a priority queue the short TTL goes to the urgent key: it expires at the head of the queue
+                // while jobs of the other key wait behind it)
+                let short = cfg.ttl && key == if cfg.queue == QueueKind::Default { 0 } else { 1 };
                 let ttl = if short { Duration::from_micros(100_000 + id as u64) } else { Duration::from_millis(TTL_BASE_MS + id as u64) };
                 let job = Job { key, msg: JobMsg { id, guard: DropGuard { id, world: world.clone() } }, options: JobOptions::new(Some(ttl)), accepted: Some(tx.into()) };
                 let lc = vsched::stamp();
@@ -976,6 +978,12 @@ pub fn plan(property: &'static str, tier: &str) -> Plan {
     // TTL expiry with time advancing
     for r in [Routing::Queuer, Routing::KeyPersistent] {
         cfgs.push((Cfg { routing: r, discard: Discard::None, workers: 1, depth: if thorough { 5 } else { 4 }, ttl: true, lean: false, burst: false, queue: QueueKind::Default, set_limit: false, flow_only: false, fine_deaths: false, script: None, slow_stops: false, late_handler: false }, 0));
+    }
+    // TTL expiry at the head of a priority queue (the urgent key carries the TTL, jobs of the other key wait behind)
+    for r in [Routing::Queuer, Routing::Sticky] {
+        if property == "C13" || thorough {
+            cfgs.push((Cfg { routing: r, discard: Discard::None, workers: 1, depth: if thorough { 6 } else { 5 }, ttl: true, lean: true, burst: false, queue: QueueKind::Priority, set_limit: false, flow_only: false, fine_deaths: false, script: None, slow_stops: false, late_handler: false }, 0));
+        }
     }
     // the discard handler is replaced through UpdateSettings before the first event: expiry in the shared
     // queue, in a worker's own queue (key-bound and sticky routing) and load shedding reach the new one
